@@ -51,7 +51,7 @@ static unsigned rnd() { rs ^= rs << 13; rs ^= rs >> 7; rs ^= rs << 17; return (u
 static int spuriousBudget = 0;
 static long steps = 0, maxSteps = 100000;
 static int* prefix = 0; static int nprefix = 0; static int policy = 0; // 0 = non-preemptive (stay, else lowest id), 1 = random
-static int lastThread = 0;
+static int lastThread = 0, sameCount = 0;
 static long clockCalls = 0; static long tickMs = 0;
 
 static VMutex* M(void* a)
@@ -111,10 +111,13 @@ static void pass_baton(int me)
   }
   else if(policy == 1) t = cand[rnd() % nc];
   else
-  {
-    for(int i = 0; i < nc; ++i) if(cand[i] == lastThread) t = lastThread;
+  { // non-preemptive default: stay on the running thread while it is enabled, but at most 64 steps in a row
+    // (a spinning thread must not starve the lock holder), then the next enabled thread in cyclic id order
+    if(sameCount < 64) for(int i = 0; i < nc; ++i) if(cand[i] == lastThread) t = lastThread;
+    if(t < 0) { for(int i = 0; i < nc; ++i) if(cand[i] > lastThread) { t = cand[i]; break; } }
     if(t < 0) t = cand[0];
   }
+  if(t == lastThread) ++sameCount; else sameCount = 0;
   lastThread = t; ++steps;
   printf("S %d en=", t); for(int i = 0; i < nc; ++i) printf(i ? ",%d" : "%d", cand[i]); printf("\n");
   if(t != me || me < 0) sem_post(&th[t].go);
@@ -233,7 +236,7 @@ void sched_reset(unsigned long long seed, int pol, const int* pre, int npre, lon
 {
   rs = seed * 0x2545F4914F6CDD1DULL + 0x9E3779B97F4A7C15ULL; for(int i = 0; i < 4; ++i) rnd();
   policy = pol; nprefix = npre; prefix = (int*)malloc(sizeof(int) * (npre + 1)); for(int i = 0; i < npre; ++i) prefix[i] = pre[i];
-  maxSteps = maxsteps; spuriousBudget = spurious; tickMs = tickms; clockCalls = 0; steps = 0; lastThread = 0;
+  maxSteps = maxsteps; spuriousBudget = spurious; tickMs = tickms; clockCalls = 0; steps = 0; lastThread = 0; sameCount = 0;
   nmtx = 0; ncnd = 0; nth = 1; memset(th, 0, sizeof(th)); th[0].used = true; sem_init(&th[0].go, 0, 0); self = 0;
 }
 // main thread (t0) has finished its program: let the remaining threads run to the end
